@@ -171,6 +171,15 @@ func (c *Conn) setSession(session Session) {
 	c.session = session
 }
 
+// bdatWriter returns the pipe that feeds the backend during a chunked
+// transfer, or nil if there is none. Close, which Server.Close calls from
+// another goroutine, uses the field too.
+func (c *Conn) bdatWriter() *io.PipeWriter {
+	c.locker.Lock()
+	defer c.locker.Unlock()
+	return c.bdatPipe
+}
+
 func (c *Conn) Close() error {
 	c.abortBdat()
 
@@ -247,7 +256,7 @@ func (c *Conn) handleGreet(enhanced bool, arg string) {
 	c.helo = domain
 
 	// RFC 5321: "An EHLO command MAY be issued by a client later in the session"
-	if c.session != nil {
+	if c.Session() != nil {
 		// RFC 5321: "... the SMTP server MUST clear all buffers
 		// and reset the state exactly as if a RSET command has been issued."
 		c.reset()
@@ -323,7 +332,7 @@ func (c *Conn) handleMail(arg string) {
 		c.writeResponse(502, EnhancedCode{5, 5, 1}, "Please introduce yourself first.")
 		return
 	}
-	if c.bdatPipe != nil {
+	if c.bdatWriter() != nil {
 		c.writeResponse(502, EnhancedCode{5, 5, 1}, "MAIL not allowed during message transfer")
 		return
 	}
@@ -690,7 +699,7 @@ func (c *Conn) handleRcpt(arg string) {
 		c.writeResponse(502, EnhancedCode{5, 5, 1}, "Missing MAIL FROM command.")
 		return
 	}
-	if c.bdatPipe != nil {
+	if c.bdatWriter() != nil {
 		c.writeResponse(502, EnhancedCode{5, 5, 1}, "RCPT not allowed during message transfer")
 		return
 	}
@@ -921,7 +930,9 @@ func (c *Conn) handleStartTLS() {
 		return
 	}
 
+	c.locker.Lock()
 	c.conn = tlsConn
+	c.locker.Unlock()
 	c.init()
 
 	// Reset all state and close the previous Session.
@@ -943,7 +954,7 @@ func (c *Conn) handleData(arg string) {
 		c.writeResponse(501, EnhancedCode{5, 5, 4}, "DATA command should not have any arguments")
 		return
 	}
-	if c.bdatPipe != nil {
+	if c.bdatWriter() != nil {
 		c.writeResponse(502, EnhancedCode{5, 5, 1}, "DATA not allowed during message transfer")
 		return
 	}
@@ -1034,9 +1045,10 @@ func (c *Conn) handleBdat(arg string) {
 		c.bdatStatus = c.createStatusCollector()
 	}
 
-	if c.bdatPipe == nil {
+	pipe := c.bdatWriter()
+	if pipe == nil {
 		var r *io.PipeReader
-		r, c.bdatPipe = io.Pipe()
+		r, pipe = io.Pipe()
 
 		c.dataResult = make(chan error, 1)
 
@@ -1045,7 +1057,9 @@ func (c *Conn) handleBdat(arg string) {
 		dataResult, bdatStatus := c.dataResult, c.bdatStatus
 		session, recipients := c.Session(), c.recipients
 		done := make(chan struct{})
-		c.bdatDone = done
+		c.locker.Lock()
+		c.bdatPipe, c.bdatDone = pipe, done
+		c.locker.Unlock()
 
 		go func() {
 			defer close(done)
@@ -1081,7 +1095,7 @@ func (c *Conn) handleBdat(arg string) {
 	c.lineLimitReader.LineLimit = 0
 
 	chunk := io.LimitReader(c.text.R, int64(size))
-	copied, err := io.Copy(c.bdatPipe, chunk)
+	copied, err := io.Copy(pipe, chunk)
 	if err == nil && copied < int64(size) {
 		// The connection ended inside the chunk.
 		err = io.ErrUnexpectedEOF
@@ -1116,7 +1130,7 @@ func (c *Conn) handleBdat(arg string) {
 	if last {
 		c.lineLimitReader.LineLimit = c.server.MaxLineLength
 
-		c.bdatPipe.Close()
+		pipe.Close()
 
 		err := <-c.dataResult
 
@@ -1374,6 +1388,9 @@ func (c *Conn) abortBdat() {
 
 	if pipe != nil {
 		pipe.CloseWithError(ErrDataReset)
+	}
+	if done != nil {
+		// Also when somebody else (Server.Close) has already taken the pipe.
 		<-done
 	}
 }
